@@ -28,6 +28,7 @@ META = {
     "assumptions": ["file stub contract of DESIGN 3.2 (tell before readline = cookie of that line; BGZF yields bytes; gzip.open('rt') yields str)"],
 }
 META["explanation"] += '  gaf/stat-same-path: the same path holds the plain file first and its BGZF copy later in one execution, and the other way round.'
+META["explanation"] += '  The BGZF GAF is called z.bgzf.gaf (no .gz suffix); the compressed graph of the replay is a gzip file of two members.'
 
 LINES = [
     "r0\t50\t0\t10\t+\t>s0>s1\t25\t2\t12\t9\t10\t60\ttp:A:P\tNM:i:-1\tcg:Z:5=1X4=\n",
@@ -114,11 +115,11 @@ def build(params):
             e = stubs.env()
             lines = STABLE if cons in ("index-stable",) else LINES
             put(e, "p.gaf", lines, "text", tc)
-            put(e, "z.gaf.gz", lines, "bgzf", zc)
+            put(e, "z.bgzf.gaf", lines, "bgzf", zc)
             put(e, "g.gfa", gfa_lines(tagged=True), "text")
             GA, V, I, S, ST, P = M["GA"], M["V"], M["I"], M["S"], M["ST"], M["P"]
             if cons == "reader":
-                ga, gb = GA.GAF("p.gaf"), GA.GAF("z.gaf.gz")
+                ga, gb = GA.GAF("p.gaf"), GA.GAF("z.bgzf.gaf")
                 ra = [rec_fields(x) for x in ga.read_file()]
                 rb = [rec_fields(x) for x in gb.read_file()]
                 if ra != rb:
@@ -128,12 +129,12 @@ def build(params):
                 for i in (2, 0, 1):
                     if rec_fields(ga.read_line(tc[i])) != ra[i] or rec_fields(gb.read_line(zc[i])) != ra[i]:
                         return "read_line(offset of record %d) does not return record %d" % (i, i)
-                if GA.utils.is_file_gzipped("p.gaf") or not GA.utils.is_file_gzipped("z.gaf.gz"):
+                if GA.utils.is_file_gzipped("p.gaf") or not GA.utils.is_file_gzipped("z.bgzf.gaf"):
                     return "is_file_gzipped wrong"
                 return None
             if cons in ("index", "index-stable"):
                 I.run("p.gaf", "g.gfa", output="p.gvi")
-                I.run("z.gaf.gz", "g.gfa", output="z.gvi")
+                I.run("z.bgzf.gaf", "g.gfa", output="z.gvi")
                 da, db = e.pickles["p.gvi"], e.pickles["z.gvi"]
                 if set(da.keys()) != set(db.keys()):
                     return "index keys differ between plain and compressed GAF"
@@ -152,8 +153,8 @@ def build(params):
                 e.writer_cookies["o2.gaf"] = yc
                 e.writer_cookies["o3.gaf.gz"] = yc
                 S.run_sort("g.gfa", "p.gaf", outgaf="o1.gaf")
-                S.run_sort("g.gfa", "z.gaf.gz", outgaf="o2.gaf")
-                S.run_sort("g.gfa", "z.gaf.gz", outgaf="o3.gaf.gz", bgzip=True)
+                S.run_sort("g.gfa", "z.bgzf.gaf", outgaf="o2.gaf")
+                S.run_sort("g.gfa", "z.bgzf.gaf", outgaf="o3.gaf.gz", bgzip=True)
                 r = same_lines(e.files["o1.gaf"].lines, e.files["o2.gaf"].lines, "sorted output")
                 if r:
                     return r
@@ -174,20 +175,20 @@ def build(params):
                 return None
             if cons == "view-whole":
                 V.run("p.gaf", output="o1.gaf")
-                V.run("z.gaf.gz", output="o2.gaf")
+                V.run("z.bgzf.gaf", output="o2.gaf")
                 return same_lines(e.files["o1.gaf"].lines, e.files["o2.gaf"].lines, "view output")
             if cons == "view-format":
                 V.run("p.gaf", gfa="g.gfa", output="o1.gaf", format="stable")
-                V.run("z.gaf.gz", gfa="g.gfa", output="o2.gaf", format="stable")
+                V.run("z.bgzf.gaf", gfa="g.gfa", output="o2.gaf", format="stable")
                 if len(e.files["o1.gaf"].lines) != 3:
                     return "conversion wrote %d lines" % len(e.files["o1.gaf"].lines)
                 return same_lines(e.files["o1.gaf"].lines, e.files["o2.gaf"].lines, "view --format output")
             if cons == "view-nodes":
                 I.run("p.gaf", "g.gfa")
-                I.run("z.gaf.gz", "g.gfa")
+                I.run("z.bgzf.gaf", "g.gfa")
                 for q in (["s1"], ["b0", "s0"], ["a0"]):
                     V.run("p.gaf", output="o1.gaf", nodes=list(q))
-                    V.run("z.gaf.gz", output="o2.gaf", nodes=list(q))
+                    V.run("z.bgzf.gaf", output="o2.gaf", nodes=list(q))
                     r = same_lines(e.files["o1.gaf"].lines, e.files["o2.gaf"].lines, "view -n %s output" % "+".join(q))
                     if r:
                         return r
@@ -197,7 +198,7 @@ def build(params):
             if cons == "stat":
                 for cg in (False, True):
                     ST.run_stat("p.gaf", cigar_stat=cg, output="o1.txt")
-                    ST.run_stat("z.gaf.gz", cigar_stat=cg, output="o2.txt")
+                    ST.run_stat("z.bgzf.gaf", cigar_stat=cg, output="o2.txt")
                     r = same_lines(e.files["o1.txt"].lines, e.files["o2.txt"].lines, "stat report")
                     if r:
                         return r
@@ -216,7 +217,7 @@ def build(params):
             if cons == "phase":
                 put(e, "h.tsv", ["r0\tH1\t7\tchr1\n", "r2\tnone\tnone\tchr1\n"], "text")
                 P.add_phase_info("p.gaf", "h.tsv", "o1.gaf")
-                P.add_phase_info("z.gaf.gz", "h.tsv", "o2.gaf")
+                P.add_phase_info("z.bgzf.gaf", "h.tsv", "o2.gaf")
                 if len(e.files["o1.gaf"].lines) != 3:
                     return "phase wrote %d lines" % len(e.files["o1.gaf"].lines)
                 return same_lines(e.files["o1.gaf"].lines, e.files["o2.gaf"].lines, "phase output")
@@ -343,8 +344,8 @@ def replay(params, model, wd):
     lines = STABLE if cons == "index-stable" else LINES
     gaf = os.path.join(wd, "p.gaf")
     open(gaf, "w").write("".join(lines))
-    pysam.tabix_compress(gaf, os.path.join(wd, "z.gaf.gz"), force=True)
-    zgaf = os.path.join(wd, "z.gaf.gz")
+    pysam.tabix_compress(gaf, os.path.join(wd, "z.bgzf.gaf"), force=True)
+    zgaf = os.path.join(wd, "z.bgzf.gaf")
 
     def read(p):
         gc.collect()
